@@ -1,4 +1,5 @@
 import RpmVerif.Driver.Bld
+import RpmVerif.Driver.WithFile
 /-! Driver for C06 (and the shared `build` op). Observation:
 `ok paysha=… archsha=… lead=<fnv> sig=<fnv> hdr=<fnv> hlen=<n> same=<bool> || <accessor dump> verify=…`.
 Model: byte-exact prediction of lead, signature header and main header (the two payload digests are
@@ -7,7 +8,7 @@ Spec (C06): every value supplied to the builder is returned by the matching acce
 namespace RpmVerif.Driver.C06
 open RpmVerif.Hdr RpmVerif.Bld RpmVerif.Driver RpmVerif.Driver.Bld
 
-def ops : List String := ["build", "dep", "depctors"]
+def ops : List String := ["build", "dep", "depctors", "wfile6"]
 
 /-! ### `dep CTOR KIND NAME VERSION`: one of the public `Dependency` constructors (identified by its Rust name), the
 dependency added to a small package through the builder method KIND, built, written, re-parsed and read back.
@@ -120,12 +121,14 @@ def firstViolation (r : Req) (m : List (String × String)) : Option String :=
       | some e =>
         match e.splitOn "," with
         | [_, mode, user, group, mtime, size, flags, digest, caps, link, _] =>
-          let wantM := match c.sourceDate with | some d => if d < f.mtime then d else f.mtime | none => f.mtime
+          let fm := f.mtime.toNat
+          let wantM := match c.sourceDate with | some d => if d < fm then d else fm | none => fm
           let wantDigest := "8:" ++ C05.hx (sha256hex (content f.seed f.size))
           let capsOk := match f.caps with
             | some cp => caps == C05.hx cp
             | none => caps == "~" || caps == "-"
-          if mode != toString f.mode then some "file-mode"
+          -- an explicit `i32` outside 16 bits cannot be read back as given: the property is silent on its word
+          if f.mode.isSome && some mode != f.mode.map toString then some "file-mode"
           else if user != C05.hx f.user then some "file-user"
           else if group != C05.hx f.group then some "file-group"
           else if mtime != toString wantM then some "file-mtime"
@@ -140,13 +143,17 @@ def firstViolation (r : Req) (m : List (String × String)) : Option String :=
 
 def handle (op : String) (args : List String) (impl : String) : String :=
   if op == "dep" || op == "depctors" then depHandle op args impl else
+  if op == "wfile6" then RpmVerif.Driver.WithFile.handle true args impl else
   match parseReq args with
   | none => badReq "cfg"
   | some r =>
     if !impl.startsWith "ok " then
       -- the configurations generated for C06 are valid, the model builds every one of them: a rejected build is a
       -- disagreement (model `ok` vs `err`), not something the spec can judge (nothing was built to read back)
-      answer "ok" (if impl == "err" then "dontcare" else "fails:" ++ impl) "build-rejected"
+      -- … unless the MODEL's `with_file` sequence fails as well (a directory / missing path as source, an mtime outside
+      -- 1970..2106): then `err` is the prediction
+      answer (if r.buildErr.isSome then "err" else "ok") (if impl == "err" then "dontcare" else "fails:" ++ impl)
+        (if r.buildErr.isSome then "with-file-err:" ++ r.buildErr.getD "" else "build-rejected")
     else
       let head := (impl.splitOn " || ").headD ""
       let dump := " || ".intercalate ((impl.splitOn " || ").drop 1)
